@@ -2328,7 +2328,17 @@ int32_t checkPathLenConstraint(psX509Cert_t *ic,
           added when it was truly just self-authenticating.
         */
         if (sc->sigHashLen == ic->sigHashLen &&
-                memcmpct(sc->sigHash, ic->sigHash, sc->sigHashLen) == 0)
+                memcmpct(sc->sigHash, ic->sigHash, sc->sigHashLen) == 0
+#   if defined(USE_ED25519) || defined(USE_ROT_ECC) || defined(USE_ROT_RSA) || (defined(USE_CL_RSA) && defined(USE_PKCS1_PSS))
+                /* sigHash is all zero when the algorithm signs the message
+                   itself (Ed25519): compare the buffered TBSCertificate. */
+                && (sc->tbsCertStart == NULL) == (ic->tbsCertStart == NULL)
+                && (sc->tbsCertStart == NULL
+                    || (sc->tbsCertLen == ic->tbsCertLen
+                        && memcmpct(sc->tbsCertStart, ic->tbsCertStart,
+                            sc->tbsCertLen) == 0))
+#   endif
+                )
         {
             if (pathLen > 0)
             {
